@@ -21,6 +21,7 @@ package rangeplugin
 //@   modifies everything
 //@   ensures ret1 == nil ==> ret0 != nil
 //@   loop 1: invariant records != nil && db != nil && rows != nil
+//@   loop-terminates 1: rows.Next reports the end of a finite result set (database driver, start-up only)
 
 //@ func (*PluginState).Handler4
 //@   implements handler.Handler4
